@@ -13,8 +13,8 @@ import time
 import z3
 
 from .builtins import IMPL, Ctx, Err, Structural, Undecided, list_view
-from .term import APP, BUILTIN, CASE, CON, CONSTR, DELAY, ERROR, FORCE, LAM, VAR, parse_term  # noqa: F401
-from .values import Con, VBuiltin, VConstr, VDelay, VLam, int_z
+from .term import APP, BUILTIN, CASE, CON, CONSTR, DELAY, FORCE, LAM, VAR, parse_term  # noqa: F401  (parse_term re-exported)
+from .values import Con, VBuiltin, VConstr, VDelay, VLam
 
 sys.path.insert(0, os.path.dirname(os.path.dirname(os.path.abspath(__file__))))
 from specs.cek import BUILTINS  # noqa: E402  name -> (tag, arity, forces), written from the specification
@@ -23,10 +23,11 @@ K_ARG, K_FUN, K_APPV, K_FORCE, K_CONSTR, K_CASE = range(6)
 
 
 class Path:
-    __slots__ = ("pc", "outcome", "traces", "steps", "uninterp", "approx")
+    __slots__ = ("pc", "outcome", "traces", "steps", "uninterp", "approx", "model")
 
-    def __init__(self, pc, outcome, traces, steps, uninterp, approx):
+    def __init__(self, pc, outcome, traces, steps, uninterp, approx, model=None):
         self.pc, self.outcome, self.traces, self.steps, self.uninterp, self.approx = list(pc), outcome, list(traces), steps, list(uninterp), approx
+        self.model = model  # a z3 model of pc when one is at hand (witness of feasibility), else None
 
     def __repr__(self):
         return f"Path({self.outcome[:2] if self.outcome[0] == 'value' else self.outcome}, |pc|={len(self.pc)}, steps={self.steps})"
@@ -115,9 +116,9 @@ class Machine:
         self._sync(())
         return self._paths
 
-    def _finish(self, st, outcome, extra_pc=()):
+    def _finish(self, st, outcome):
         self.stats["steps"] += st.steps
-        self._paths.append(Path(st.pc + tuple(extra_pc), outcome, st.traces, st.steps, dict.fromkeys(st.uninterp), st.approx))
+        self._paths.append(Path(st.pc, outcome, st.traces, st.steps, dict.fromkeys(st.uninterp), st.approx, st.model))
 
     def _fork(self, st, alts):
         """alts: [(cond, kind, payload)], kind 'ret' (value) | 'err' (Err) | 'go' ((term, env, kont)); cond z3 Bool | True.
